@@ -84,10 +84,13 @@ structure L (K V : Type) where
   /-- ghost: abstract binding of the key at the instant of the `Load`, and the clock then -/
   absAtLoad : Option (Item V)
   nowAtLoad : Int
+  /-- ghost: the (key, value) pairs this call's `GetAndDelete`/`Delete`/`DeleteExpired` `Compute`s have physically
+  removed from `items` so far (never read by non-ghost code) -/
+  erased : List (K × V)
 
 def L.init {K V : Type} : L K V :=
   { pc := .idle, op := none, d := 0, e := 0, loaded := none, passNow := 0, ec := none, todo := [], cur := none,
-    queue := [], removed := none, result := none, absAtLoad := none, nowAtLoad := 0 }
+    queue := [], removed := none, result := none, absAtLoad := none, nowAtLoad := 0, erased := [] }
 
 /-- environment inputs of one step -/
 structure Choice (K V : Type) where
@@ -101,7 +104,7 @@ variable {K V : Type} [DecidableEq K] [Inhabited V]
 def view (g : G K V) : CSt K V := { items := g.items, now := g.now, dflt := g.dflt, cb := g.cb }
 
 def startOp (l : L K V) (op : COp K V) : L K V :=
-  let l := { l with op := some op, result := none, loaded := none, queue := [], removed := none, cur := none }
+  let l := { l with op := some op, result := none, loaded := none, queue := [], removed := none, cur := none, erased := [] }
   match op with
   | .set _ _ d => { l with pc := if d = Gen.DefaultExpiration then .setReadDflt else .setReadClock, d := d }
   | .get _ | .getWithExpiration _ | .getWithTTL _ => { l with pc := .getLoad }
@@ -217,7 +220,8 @@ def tstep (_t : Tid) (g : G K V) (l : L K V) (c : Choice K V) : Option (G K V ×
         | _, some i => if !Cache.expired (view g) i then .val i.v true else .val default false
         | _, none => .val default false
       some (linearize { g with items := r.1 } op,
-            { l with pc := if old.isSome then .gdReadCb else .ret, removed := old, result := some res })
+            { l with pc := if old.isSome then .gdReadCb else .ret, removed := old, result := some res,
+                     erased := match old with | some i => l.erased ++ [(k, i.v)] | none => l.erased })
     | _, _ => none
   | .gdReadCb => some (g, { l with pc := .gdFire, ec := g.cb })
   | .gdFire =>
@@ -246,7 +250,10 @@ def tstep (_t : Tid) (g : G K V) (l : L K V) (c : Choice K V) : Option (G K V ×
         | some cur => if Gen.item_expiredWithNow cur.e l.passNow && l.ec.isSome then [(k, cur.v)] else []
         | none => []
       some ({ g with items := (g.items.compute k (Cache.sweepFn l.passNow)).1 },
-            { l with pc := .deVisit, cur := none, queue := l.queue ++ logged })
+            { l with pc := .deVisit, cur := none, queue := l.queue ++ logged,
+                     erased := l.erased ++ (match g.items.get k with
+                       | some cur => if Gen.item_expiredWithNow cur.e l.passNow then [(k, cur.v)] else []
+                       | none => []) })
     | none => none
   | .deFire =>
     match l.queue, l.ec with
